@@ -95,6 +95,22 @@ Theorem C10_spec_vocabulary :
 Proof. exact spec_vocabulary. Qed.
 Print Assumptions C10_spec_vocabulary.
 
+(* ------------------------------------------------------------------ no dependence on the caller's errno *)
+(* values never depend on the incoming errno; the outgoing errno is either the incoming one handed
+   back (get_boolean; get_double on null/boolean/number nodes) or does not depend on it at all *)
+Theorem C10_errno_independent : forall strtod o e0 e1,
+  get_int e0 o = get_int e1 o /\ get_int64 e0 o = get_int64 e1 o /\ get_uint64 e0 o = get_uint64 e1 o /\
+  (exists v, get_boolean e0 o = Ret v e0 /\ get_boolean e1 o = Ret v e1) /\
+  (exists v, (get_double strtod e0 o = Ret v e0 /\ get_double strtod e1 o = Ret v e1) \/
+             (exists e, get_double strtod e0 o = Ret v e /\ get_double strtod e1 o = Ret v e)).
+Proof. exact errno_independent. Qed.
+Print Assumptions C10_errno_independent.
+
+Theorem C10_mutators_leave_errno : forall strtod e0 o op r e o',
+  num_step strtod e0 o op = (OSet r e, o') -> e = e0.
+Proof. exact step_mutator_errno. Qed.
+Print Assumptions C10_mutators_leave_errno.
+
 (* ------------------------------------------------------------------ set then get *)
 Theorem C10_set_get_int64 : forall e0 o v, is_intnode o = true -> INT64_MIN <= v <= INT64_MAX ->
   fst (set_int64 o v) = 1 /\ wf (snd (set_int64 o v)) /\ get_int64 e0 (snd (set_int64 o v)) = Ret v E_NONE.
